@@ -285,7 +285,7 @@ pub open spec fn spec_trim_protocol(s: Seq<char>) -> Seq<char> {
 }
 //@ item trim_protocol file=src/sys/fs/path.rs fn=trim_protocol props=C15,C05,C12,C01
 //@ sig pub fn trim_protocol<T: AsRef<Path>>(path: T) -> PathBuf
-//@ rw R4 1 ⟦base.find("//")⟧ => ⟦base.find_dslash()⟧
+//@ rw R4 + re⟦\.find\("//"\)⟧ => ⟦.find_dslash()⟧
 //@ rw R4 * re⟦format!\("\{\}\{\}", (\w+), (\w+)\)⟧ => ⟦&fmt_concat(\1, &\2)⟧
 //@ rw R1 * re⟦PathBuf::from\(⟧ => ⟦PathBuf::from_s(⟧
 //@ rw R1 * ⟦PathBuf::from_s(suffix)⟧ => ⟦PathBuf::from_s(&suffix)⟧
